@@ -259,7 +259,8 @@ impl Model for Hist {
 pub fn long_history_ladder(k: usize) -> (u64, Option<(String, String, String)>) {
     let doc = value_to_var(&json!({"a": {"b": [1, 2, 3]}, "rows": [{"c": 1}, {"c": 2}], "s": "x", "mixed": [{"c": 3, "id": "stale"}, {"c": "x"}, {"c": 2}]}));
     let exprs: Vec<String> = (0..k)
-        .map(|i| match i % 10 {
+        .map(|i| match i % 11 {
+            10 => format!("{{a: s, b: a, c: rows, d: `{}`, a: mixed, e: s}}", i % 3), // a repeated key among several: the tree is the same tree at every compilation
             8 => format!("sort_by(mixed, &c)[{}]", i % 3),                // a by-function that fails at its second element
             9 => format!("{{a: abs('{}'), b: length(`1`), c: nosuch(@)}}", i % 4), // several failing values in one multi-select
             6 => format!("sort_by(rows, &abs(s))[{}]", i % 3),           // fails inside an expression reference
@@ -293,7 +294,7 @@ pub fn long_history_ladder(k: usize) -> (u64, Option<(String, String, String)>) 
     orders.push((0..k).flat_map(|i| vec![3 + 6 * (i % (k / 6).max(1)), i]).map(|i| i % k).collect());
     // failing-heavy: before every revisit, the two expressions of the same block that fail inside an expression
     // reference and below a projection
-    orders.push((0..k).flat_map(|i| vec![(i / 10) * 10 + 6, (i / 10) * 10 + 7, (i / 10) * 10 + 8, (i / 10) * 10 + 3, i]).filter(|&i| i < k).collect());
+    orders.push((0..k).flat_map(|i| vec![(i / 11) * 11 + 6, (i / 11) * 11 + 7, (i / 11) * 11 + 8, (i / 11) * 11 + 3, i]).filter(|&i| i < k).collect());
     orders.push((0..k).collect());
     for (oi, order) in orders.iter().enumerate() {
         for &i in order {
